@@ -10,7 +10,7 @@ for pid in props:
     if pid not in registry.PROPS:
         continue
     spec = registry.PROPS[pid]
-    t = T.CHECKS[pid]
+    t = registry.MANIFEST_TEXT[pid]
     checks.append({
         'property_id': pid,
         'quick_cmd': 'python3 tools/check.py %s --tier quick' % pid,
